@@ -271,3 +271,40 @@ Proof.
   split; [|split; [intros []|reflexivity]].
   unfold winv, per_ok. cbn. split; [discriminate|split; [constructor|split; constructor]].
 Qed.
+
+(* ------------------------------------------------------------------------------------------
+   Tie to the source (C05/Source.v): the arithmetic at the head of HHWheelTimer.addNode and
+   HHWheelTimer.shiftWheels is regenerated from hhwheel_timer.go by tools/gofunc on every run
+   (Generated/Wheel.v, fragments "F#prefix") and equals the model's: the clamped remaining
+   ticks and the wrapping absolute expiry from which bucket_of chooses level and slot, and
+   the guard / start value of the cascade loop.  If those statements change in the source,
+   these obligations are re-checked. *)
+From FV Require Import Generated.Consts Generated.Wheel C05.Source.
+
+Theorem c05_src_add_node : forall cur tt n,
+  0 <= cur < 2 ^ 32 -> - 2 ^ 62 < tt < 2 ^ 62 -> - 2 ^ 62 < ndl n < 2 ^ 62 ->
+  go_HHWheelTimer_addNode_prefix tt cur (ndl n) = Some (model_ticks tt n, model_expires cur tt n).
+Proof. exact src_add_node. Qed.
+Print Assumptions c05_src_add_node.
+
+(* model_ticks / model_expires are exactly the quantities bucket_of places a node by *)
+Theorem c05_src_bucket_of : forall cur tt n,
+  bucket_of cur tt n =
+  let ticks := model_ticks tt n in
+  let expires := model_expires cur tt n in
+  if ticks <? sched_TVR_SIZE then (0, Z.land expires sched_TVR_MASK)
+  else if ticks <? Z.shiftl 1 (level_shift 1) then (1, tvn_index expires 0)
+  else if ticks <? Z.shiftl 1 (level_shift 2) then (2, tvn_index expires 1)
+  else if ticks <? Z.shiftl 1 (level_shift 3) then (3, tvn_index expires 2)
+  else (4, tvn_index expires 3).
+Proof. exact bucket_of_unfold. Qed.
+Print Assumptions c05_src_bucket_of.
+
+Theorem c05_src_shift_wheels : forall w, 0 <= wcur w < 2 ^ 32 ->
+  shift_wheels w =
+  match go_HHWheelTimer_shiftWheels_prefix (wcur w) with
+  | None => w
+  | Some (ct, ticks) => shift_loop (Z.to_nat sched_WHEEL_LEVEL) 0 ticks w
+  end.
+Proof. exact src_shift_wheels. Qed.
+Print Assumptions c05_src_shift_wheels.
